@@ -23,7 +23,11 @@ LANDMARKS = {
 }
 
 
+_state = {"rec": None}
+
+
 def setup(rec, reach):
+    _state["rec"] = rec
     mon3d.attach(rec, reach, {"C03"})
 
 
@@ -36,9 +40,23 @@ def _call(s, model):
 
     try:
         p, a, b = annotator.find_pairs(s, model)
-        return len(p) + len(a) + len(b)
     except Exception:
         return 1
+    # one model asked for in a structure that holds several: the pairs of the judged call are also what the public
+    # entry points built on it report for that model (the base-interaction lists and the full 2D analysis)
+    rec = _state["rec"]
+    if rec is not None and model is not None and len({r.model for r in s.residues}) > 1:
+        want = {(repr(x.nt1), repr(x.nt2), x.lw.value) for x in p}
+        for name, f in (("extract_base_interactions", lambda: annotator.extract_base_interactions(s, model).basePairs),
+                        ("extract_secondary_structure", lambda: annotator.extract_secondary_structure(s, model)[0].baseInteractions.basePairs)):
+            try:
+                got = {(repr(x.nt1), repr(x.nt2), x.lw.value) for x in f()}
+            except Exception as e:
+                rec.undecided("pairs.entry-points-report-the-requested-model", f"{name} raised {type(e).__name__}")
+                continue
+            rec.check("pairs.entry-points-report-the-requested-model", got == want,
+                      lambda: {"entry-point": name, "model": model, "models-in-structure": sorted({r.model for r in s.residues})[:12], "only-there": sorted(got - want)[:4], "only-in-find_pairs": sorted(want - got)[:4], "counts": [len(got), len(want)]})
+    return len(p) + len(a) + len(b)
 
 
 def run_case(case, rec):
